@@ -2,18 +2,18 @@ SPECIFICATION Spec
 CONSTANTS
   Budget = 2
   SpaceSize = 2
-  MaxMeas = 2
-  Rewards <- PalNP
+  MaxMeas = 1
+  Rewards = {2}
   Accs = {}
   Steps = {0}
   Extras = {0}
   MonotoneSteps = TRUE
   Objective = "reward"
-  Policy = "neg"
+  Policy = "none"
   CtrlAt = {}
   MetaKeys = {1, 2}
   MetaVals = {1, 2}
-  LinkNames = {1, 2}
+  LinkNames = {1}
   Urls = {1, 2}
   FinalRule = "last"
   BestRule = "strict"
